@@ -146,4 +146,6 @@ ground facts at concrete temperatures.  phonopy's constants (CODATA 2006) are co
 relative; the oracle tolerance is set accordingly.  Quick 67 s."""
 AS["C20"] = """**As built** (`checks/c20.py`).  As planned; in addition the QHA unit asserts that the caller's input
 arrays are not modified (the C20 seed aliases `electronic_energies` and adds PV in place), which required the `np`
-proxy to preserve numpy's no-copy semantics of `asarray`/`array(copy=False)`.  Quick 3 s."""
+proxy to preserve numpy's no-copy semantics of `asarray`/`array(copy=False)`.  Added later: numerical C_P =
+−T × three-point second difference of the fitted G(T) (`numpy.polyfit` through three points is an exact interpolation
+and is evaluated as such by the stub, linear in the symbolic ordinates).  Quick 3 s."""
